@@ -279,3 +279,12 @@ def Node.toD (n : Node) : DNode :=
     retained := n.retained.map RExp.toD, disable := [] }
 
 end Martian.Refactor
+
+namespace Martian.Refactor
+
+/-- no call carries a `disabled` modifier binding -/
+def noDisabledMods (p : Program) : Bool :=
+  p.callables.all (fun c => c.calls.all (fun k => k.mods.all (fun b => b.name != "disabled")))
+  && (match p.top with | some t => t.mods.all (fun b => b.name != "disabled") | none => true)
+
+end Martian.Refactor
